@@ -63,6 +63,12 @@ MUTATIONS = [
     ('last-parsed-tree-kept-for-debugging', 'C08', 'emmet/markup/__init__.py',
      "    finally:\n        config.user_config['text'] = text\n    return abbr",
      "    finally:\n        config.user_config['text'] = text\n    _LAST[:] = [abbr]\n    return abbr"),
+    ('json-flag-kept-in-module-state-and-reset-on-success-only', 'C08', 'emmet/stylesheet/format.py',
+     "    for i, prop in enumerate(abbr):\n        if fmt and i != 0:\n            out.push_newline(True)\n        css_property(prop, out, config)\n\n    return out.value",
+     "    if config.options.get('stylesheet.json'):\n        _STATE['json'] = True\n    for i, prop in enumerate(abbr):\n        if fmt and i != 0:\n            out.push_newline(True)\n        css_property(prop, out, config)\n    _STATE['json'] = False\n\n    return out.value"),
+    ('implicit-tag-mode-switched-around-one-callee-and-switched-back-on-success-only', 'C08', 'emmet/markup/__init__.py',
+     "    lorem(node, ancestors, config)\n",
+     "    _mode = ELEMENT_MAP.pop('ul', None)\n    lorem(node, ancestors, config)\n    if _mode is not None:\n        ELEMENT_MAP['ul'] = _mode\n"),
     ('offset-not-advanced-in-push-field', 'C13', 'emmet/output_stream.py',
      "        self._push(field(index, placeholder, offset=self.offset, line=self.line, column=self.column))",
      "        val = field(index, placeholder, offset=self.offset, line=self.line, column=self.column)\n        self._value.append(val)\n        self.column += len(val)"),
@@ -175,6 +181,8 @@ EQUIVALENT = [
 ]
 
 PREAMBLE = {
+    'json-flag-kept-in-module-state-and-reset-on-success-only': ('emmet/stylesheet/format.py', "\n_STATE = {'json': False}\n"),
+    'implicit-tag-mode-switched-around-one-callee-and-switched-back-on-success-only': ('emmet/markup/__init__.py', "\nfrom .implicit_tag import ELEMENT_MAP\n"),
     'option-read-from-a-constant-captured-at-import': ('emmet/output_stream.py', "\nfrom .config import DEFAULT_OPTIONS\n_INLINE = DEFAULT_OPTIONS['inlineElements']\n"),
     'tokenizer-memoised-by-source-string-without-bound': ('emmet/abbreviation/__init__.py', "\n_TOKENS = {}\n"),
     'warning-text-contains-the-input': ('emmet/stylesheet/format.py', "\nimport warnings\n"),
@@ -186,6 +194,7 @@ PREAMBLE = {
     'module-level-snippet-cache-ignores-config': ('emmet/stylesheet/__init__.py', "\n_SNIPPET_CACHE = []\n"),
 }
 POSTAMBLE = {
+    'json-flag-kept-in-module-state-and-reset-on-success-only': ('emmet/stylesheet/format.py', "    is_json = config.options.get('stylesheet.json')\n\n    if node.name:", "    is_json = config.options.get('stylesheet.json') or _STATE['json']\n\n    if node.name:"),
     'merged-data-memoised-by-type-syntax-key': ('emmet/config.py', "    return result\n", "    _MEMO[memo_key] = dict(result)\n    return result\n"),
 }
 
